@@ -18,6 +18,7 @@ def run(ctx):
     g = gtirb_from_repo.load()
     import lookups as _lkr
     _lkr.repeated_events(ctx, g, 'block-lookup')
+    _lkr.many_members(ctx, g, 'block-lookup')
     import lookups as _lkd
     _lkd.deferred_consumption(ctx, g, 'blocks', 'block-lookup:deferred')
     _lkd.failed_bulk_blocks(ctx, g, ctx.rng, 60 if ctx.quick else 1500, 'block-lookup:failed-bulk')
